@@ -88,6 +88,8 @@ def render_value(v, pname, res, netcdf=False):
             return "in.nc" if netcdf else "in.csv"
         if f == "rel_missing":
             return "out_%s_%s.%s" % (res, pname, "nc" if netcdf else "csv")
+        if f == "colb":
+            return "b"
         if f == "empty":
             return '""'
         if f == "intstr":
